@@ -110,3 +110,9 @@ Theorem C20_logged_bytes_bounded_by_cost : forall op s st g,
   0xa0 <= op <= 0xa4 -> step_cost op s st = Some g -> 8 * back s 1 <= g /\ 375 * (1 + (op - 0xa0)) <= g.
 Proof. exact logged_bytes_bounded_by_cost. Qed.
 Print Assumptions C20_logged_bytes_bounded_by_cost.
+
+(** CREATE2 hashes its whole init code: on every fork (gasCreate2 before Shanghai, gasCreate2Eip3860 after) the charge covers it *)
+Theorem C20_create2_hashed_bytes_bounded_by_cost : forall shanghai s st g,
+  create_cost shanghai 0xf5 s st = Some g -> back s 2 < two64 /\ 6 * back s 2 <= 32 * g.
+Proof. exact create2_hashed_bytes_bounded_by_cost. Qed.
+Print Assumptions C20_create2_hashed_bytes_bounded_by_cost.
